@@ -213,7 +213,8 @@ def run_job(job: Job, tmpdir: str) -> Result:
         return res
     if kind == "error":
         call = _parse_call(msg, job.func)
-        res.cex = {"message": msg[:600], "call": call, "cell": job.env}
+        res.cex = {"message": msg[:600], "call": call, "cell": job.env, "module": job.module,
+                   "func": job.func, "lift": job.lift}
         if call is None:
             res.detail = "counterexample could not be parsed: " + msg[:300]
             return res
